@@ -170,3 +170,42 @@ pub fn run(a: &Args, seed: u64) -> Result<E4Result, String> {
     }
     Ok(E4Result { engine_json, coverage, violations })
 }
+
+/// Replay of an E4 file: the recorded input alone, under the two recorded Miri seeds, full outcome
+/// text compared. Exit 1 iff they still differ.
+pub fn replay(j: &J, path: &std::path::Path) -> i32 {
+    let verif = PathBuf::from("/verif");
+    let input = j.get("input").and_then(|x| x.str()).unwrap_or("").to_string();
+    let seed_of = |k: &str| j.get(k).and_then(|x| x.get("miri_seed")).and_then(|x| x.u64()).unwrap_or(0);
+    let (s1, s2) = (seed_of("first"), seed_of("second"));
+    if input.is_empty() {
+        eprintln!("replay file has no input");
+        return 2;
+    }
+    if std::fs::write(verif.join("build/miri_inputs.txt"), &input).is_err() {
+        return 2;
+    }
+    let run = |s: u64| -> Option<Vec<String>> {
+        let o = run_seed(&verif, s, true).ok()?.wait_with_output().ok()?;
+        if !o.status.success() {
+            eprintln!("miri failed: {}", String::from_utf8_lossy(&o.stderr).chars().take(800).collect::<String>());
+            return None;
+        }
+        Some(String::from_utf8_lossy(&o.stdout).lines().filter(|l| l.starts_with("OUT ") || l.starts_with("TEXT ")).map(|l| l.to_string()).collect())
+    };
+    let (Some(a), Some(b)) = (run(s1), run(s2)) else { return 2 };
+    // compare outcome hashes irrespective of thread tag
+    let hashes = |v: &Vec<String>| -> BTreeSet<String> { v.iter().filter(|l| l.starts_with("OUT ")).filter_map(|l| l.split(' ').nth(3).map(|x| x.to_string())).collect() };
+    let (ha, hb) = (hashes(&a), hashes(&b));
+    if ha.len() > 1 || hb.len() > 1 || ha != hb {
+        println!("replay (E4): outcomes differ between Miri seeds {s1} and {s2} (or between threads of one seed)");
+        for l in a.iter().chain(b.iter()).filter(|l| l.starts_with("TEXT ")) {
+            println!("{}", l.chars().take(600).collect::<String>());
+        }
+        println!("VIOLATION property=C16 replay={}", path.display());
+        1
+    } else {
+        println!("replay (E4): outcomes agree (no violation)");
+        0
+    }
+}
